@@ -269,6 +269,8 @@ FIXED_HISTORIES = [
     # dense / singular / sparse: change between construction and first use, explicit object, later change, strong form
     "cs 0 ; np 3 5 5 400 4 ; co dense 0 0 g n ; co dense 0 0 e0 n ; sg regular 6 ; wf 0 ; wf 1 ; sg regular 2 ; "
     "sg singular 6 ; wf 0 ; sf 1 ; mm 0 ; sf 0",
+    # two spaces on different grids: mass matrices are memoised per space object, with the global order of their first use
+    "cs 0 ; cs 1 ; mm 0 ; sg regular 6 ; mm 1 ; co sparse 1 0 g n ; sf 0 ; mm 0 ; cs 0 ; mm 2",
 ]
 
 
@@ -378,12 +380,10 @@ class Plan:
 
         def cls(j):
             if j["kind"] == "weak" and j["asm"] == "dense":
-                return "A" + j["prec"]
+                return "A"
             if j["kind"] == "pot":
                 return "C"
-            if j["kind"] == "weak" and j["asm"] == "fmm":
-                return "B"
-            return "D"
+            return "B"
         groups = {}
         for j in jobs:
             groups.setdefault(cls(j), []).append(j)
@@ -910,6 +910,7 @@ def execute(ctx, plan):
                     obs.append(o)
                     vals.append(v)
                 results.append(dict(obs=obs, vals=vals, notes=ex.notes))
+                ctx.log(f"history {len(results)}/{len(plan.histories)} executed ({len(h)} calls, {time.time() - t0:.0f}s)")
     finally:
         rec.uninstall()
         R.set_fields(api.GLOBAL_PARAMETERS, saved_params)
@@ -1175,14 +1176,15 @@ def oracle(ctx, plan=None):
                     continue
                 d = _rel(np.asarray(val), ref)
                 cls = f"{kind}:{what}"
-                worst[cls] = max(worst.get(cls, 0.0), d)
+                if d <= tol:
+                    worst[cls] = max(worst.get(cls, 0.0), d)
                 if d > tol:
                     key = _finding_key(h, i, meta, op) or f"history-dependent-{op[0]}-{kind}"
                     res.counterexample(key, f"history `{line_of(h)}`: result of step {i} ({' '.join(map(str, op))}) "
                                        f"differs from the {what} ({jid}) by {d:.3e} relative (tolerance {tol:g}); "
                                        f"specification: {spec[i]}", history=line_of(h), step=i, job=jid, error=d,
                                        variant=plan.variant)
-    res.stats["worst_relative_difference"] = {k: float(f"{v:.3e}") for k, v in worst.items()}
+    res.stats["worst_relative_difference_among_passing"] = {k: float(f"{v:.3e}") for k, v in worst.items()}
     # sensitivity of the oracle: references for different regular orders must differ, otherwise a parameter that is
     # ignored everywhere could not be seen
     by = {}
